@@ -83,7 +83,7 @@ CHECKS = {
         level_text="seeded random sequences of writes (tiny to exactly S), destructive reads, peek+reclaim and non-destructive file snapshots on overwrite rings of all sizes; every chunk that "
                    "comes out must be a written one, in order, gap-free up to the newest, and never fewer than the newest chunks that fit S",
         level_note="trusted: the model (set of possible consumed boundaries, so byte-identical chunks cannot cause a wrong guess), ASan/UBSan",
-        stages=[rnd("ring", "c11", 250000, 5000000, essential=["wrapped_twice", "multi_reclaim", "snapshot_after_wrap", "semaphore", "near_capacity_chunk", "read_after_overwrite", "full_S_chunk", "peek"]),
+        stages=[rnd("ring", "c11", 250000, 5000000, essential=["wrapped_twice", "multi_reclaim", "snapshot_after_wrap", "semaphore", "near_capacity_chunk", "read_after_overwrite", "full_S_chunk", "peek", "long_run_of_tiny_chunks"]),
                 rnd("blackbox", "c11b", 6000, 300000, essential=["wrapped_and_dropped", "dump_mid_sequence", "too_long_record", "many_records"]),
                 fz("c11", 240)],
         assumptions=["single writer/reader thread", "snapshots need the private /dev/shm namespace (qb_rb_create_from_file uses a fixed name)"],
@@ -153,7 +153,7 @@ CHECKS = {
                    "record field at boundary values with a valid header hash, random byte runs, non-dumps, old-format headers) and every variant is printed: must return, no sanitizer report, no residue",
         level_note="trusted: the printout parser in the harness; mmap is interposed so that every ring mapping is surrounded by 16 MiB PROT_NONE guards (ASan does not police mmap'd memory)",
         stages=[rnd("file", "c15", 12000, 600000, essential=["wrapped_and_dropped", "dump_mid_sequence", "too_long_record", "truncated_file", "header_word_damaged", "chunk_header_damaged",
-                                                               "record_field_damaged", "random_bytes", "not_a_dump", "old_format_header", "hash_valid_but_damaged", "print_partial_then_error"])],
+                                                               "record_field_damaged", "random_bytes", "not_a_dump", "old_format_header", "hash_valid_but_damaged", "print_partial_then_error", "two_fields_damaged"])],
         assumptions=["default line length (the reader's buffers are sized by QB_LOG_MAX_LEN)", "function name and tags are functions of the call site (file, line), as the dynamic call-site registry requires",
                      "records whose serialised form is within a few bytes of the 512-byte limit are not generated (stored vs. replaced by the notice is not pinned down by the statement)"],
     ),
@@ -167,7 +167,7 @@ CHECKS = {
                    "delivery per selected enabled target, message text, reported tag), and every history is run a second time with all call sites executed before any configuration: both runs must deliver identically",
         level_note="trusted: the declarative model (matching re-implemented in the harness; regexes through libc regcomp with the same flags); the twin-run oracle needs no model",
         stages=[rnd("route", "c12", 40000, 1500000, essential=["site_first_seen_between_filter_and_enable", "remove_with_overlap_then_log", "regex_filter", "comma_list", "priority_window", "tag_filter",
-                                                                  "target_closed_and_slot_reused", "clear_all", "delivered", "suppressed", "invalid_regex", "explicit_tag", "three_targets"])],
+                                                                  "target_closed_and_slot_reused", "clear_all", "delivered", "suppressed", "invalid_regex", "explicit_tag", "three_targets", "clear_all_with_narrower_arguments"])],
         assumptions=["the function name and the explicit tag of a call are functions of (file, line): the dynamic call-site registry identifies a site by (file, line, priority, format)",
                      "custom targets only; syslog/stderr/file/blackbox targets route through the same code"],
     ),
@@ -182,7 +182,7 @@ CHECKS = {
                    "target B takes the disruptive control ops and must at least see an increasing duplicate-free subsequence; hangs are violations",
         level_note="trusted: the sequence oracle; interleavings inside log_thread.c are perturbed (sleeps, freeze signal), not owned: a race needing a specific interleaving may be missed by a given seed",
         stages=[rnd("thread", "c16", 4000, 200000, essential=["control_while_worker_busy", "backlog_limit_hit", "undocumented_order", "reinit_after_fini", "control_before_start", "log_before_start",
-                                                                "never_started", "two_threaded_targets", "big_burst", "fini_with_backlog"])],
+                                                                "never_started", "two_threaded_targets", "big_burst", "fini_with_backlog", "file_target"])],
         assumptions=["real pthreads: schedules are sampled by timing perturbation, not enumerated", "a failure must reproduce in at least 1 of 3 re-runs to be reported",
                      "messages to a target that is disabled or closed while they are queued may be discarded (only target A, which stays enabled, is held to exactly-once delivery)"],
     ),
@@ -196,7 +196,7 @@ CHECKS = {
                    "callback (exactly once, never after a successful delete, job order per priority, readiness) and at quiescence (everything registered and due was dispatched)",
         level_note="trusted: the registration model; clock_gettime/epoll_wait/random are interposed (virtual time, unique check words: the 2^-31 handle collision is out of scope)",
         stages=[rnd("program", "c08", 100000, 3000000, essential=["delete_of_queued_item", "stale_handle_after_slot_reuse", "callback_deletes_itself", "fd_number_reused", "signal_delivered",
-                                                                    "signal_deleted_while_queued", "fd_self_remove_by_return", "job_deleted_while_waiting", "timer_deleted_pending", "stop_from_callback", "poll_mod"])],
+                                                                    "signal_deleted_while_queued", "fd_self_remove_by_return", "job_deleted_while_waiting", "timer_deleted_pending", "stop_from_callback", "poll_mod", "double_add_refused"])],
         assumptions=["handles passed to delete calls are values the API issued earlier (live, fired, deleted, slot reused); signal handles (raw pointers) are deleted at most once",
                      "a descriptor is closed only after qb_loop_poll_del succeeded for it; signals are raised from the loop thread and only while a handler for them is registered",
                      "signal handlers are only added while no delivery of that signal is under way"],
@@ -211,7 +211,7 @@ CHECKS = {
                    "non-negative and ends no later than the earliest expiry + slack (1 ms + ticks, or 50 ms after jobs), bounded lateness, queries non-zero exactly while pending",
         level_note="trusted: the timer model; durations beyond one hour are judged by the requested timeouts only (the virtual run does not reach their expiry)",
         stages=[rnd("timers", "c09", 50000, 3000000, essential=["three_pending_delete_nonhead", "duration_beyond_31bit_ms", "duration_beyond_32bit_ms", "duration_near_2_63", "duration_near_2_64",
-                                                                   "zero_duration", "early_wakeup", "clock_tick", "job_throttle_seen", "delete_from_callback", "query_pending", "query_after_fire", "many_pending"])],
+                                                                   "zero_duration", "early_wakeup", "clock_tick", "job_throttle_seen", "delete_from_callback", "query_pending", "query_after_fire", "many_pending", "heap_profile", "self_removing_descriptor"])],
         assumptions=["the monotonic clock never goes backwards", "a timer whose expiry equals the current time to the nanosecond may be dispatched on the next iteration (strict comparison)"],
     ),
     "C10": dict(
@@ -224,7 +224,7 @@ CHECKS = {
                    "three iterations, and whenever a lower level dispatches every busy higher level dispatches in the same iteration",
         level_note="trusted: the workload model (which sources are ready when); at most 11 descriptors are ready at once (epoll_wait harvests 12 events per iteration)",
         stages=[rnd("work", "c10", 60000, 2000000, essential=["all_levels_busy_9_iterations", "higher_level_saturated", "jobs", "descriptors", "timers", "source_joined_midrun", "source_left_midrun",
-                                                                "nine_or_more_on_one_level", "job_only_level"])],
+                                                                "nine_or_more_on_one_level", "job_only_level", "descriptor_moved_and_removed"])],
         assumptions=["no exact dispatch ratios are checked, only the bounds the statement gives"],
     ),
     "C02": dict(
